@@ -1163,7 +1163,13 @@ class Register(GenericRegister):
             if value._cohdlstd_notify_mode is _NotifyOnWrite:
                 value.notify()
 
-        result = await std.as_awaitable(self._on_write_, type(self)._from_bits_(data))
+        # only the bytes selected by the write mask are taken from the bus,
+        # all other bits keep the current content of the register
+        masked_data = mask.apply(self._to_bits_(), data)
+
+        result = await std.as_awaitable(
+            self._on_write_, type(self)._from_bits_(masked_data)
+        )
 
         if result is None:
             # check that self contains no memory
